@@ -30,9 +30,10 @@ Range(s) == {s[i] : i \in 1..Len(s)}
 NoDup(s) == Cardinality(Range(s)) = Len(s)
 AllPaths(names, d) == UNION {[1..n -> names] : n \in 0..d}
 
-EntryAt(rec, p) == LET S == {i \in 1..Len(rec.q) : rec.q[i].p = p} IN
-                   IF S = {} THEN [p |-> p, subs |-> <<>>, keys |-> <<>>, lines |-> <<>>, map |-> <<>>, g |-> <<>>]
-                   ELSE rec.q[CHOOSE i \in S : TRUE]
+EntryIn(q, p) == LET S == {i \in 1..Len(q) : q[i].p = p} IN
+                 IF S = {} THEN [p |-> p, subs |-> <<>>, keys |-> <<>>, lines |-> <<>>, map |-> <<>>, g |-> <<>>]
+                 ELSE q[CHOOSE i \in S : TRUE]
+EntryAt(rec, p) == EntryIn(rec.q, p)
 ResAt(e, k) == LET S == {i \in 1..Len(e.g) : e.g[i][1] = k} IN IF S = {} THEN AbsentRes ELSE e.g[CHOOSE i \in S : TRUE][2]
 
 \* what the eight scalar getters must answer for key k of domain p
@@ -66,6 +67,7 @@ Failed(rec, r) ==
      : p \in AllPaths(Range(rec.names), rec.depth)}
 First(fs) == Priority[SetMin({i \in 1..Len(Priority) : Priority[i] \in fs})]
 
+CallerMutations == {"sort-descending", "overwrite-elements", "reuse-from-start", "clear"}
 \* the harness did its part: text = rendering of the lines, vocabulary respected, everything relevant was asked
 Sane(rec, r) ==
    LET doc == rec.lines IN
@@ -81,6 +83,25 @@ Sane(rec, r) ==
    /\ {"k1", "k2"} \subseteq Range(rec.keys)
    /\ rec.class \in {"ok", "err", "panic"}
    /\ rec.class # "ok" => rec.q = <<>>
+   /\ rec.class # "ok" => rec.q2 = <<>> /\ rec.shared = <<>>
+   /\ rec.mut \in CallerMutations \cup {""}
+   /\ rec.class = "ok" => rec.mut # ""
+
+\* ---- the second observation (Conf!Answer is a function of the result alone: Conf.tla, "Sessions").
+\* The driver asked everything (rec.q), then did to every listing and map it had received what a caller may do to a value
+\* it owns (rec.mut), then asked the same again (rec.q2).  Names of the getters whose answer is no longer the same:
+Changed(rec) ==
+   UNION {
+     LET a == EntryIn(rec.q, p) b == EntryIn(rec.q2, p) IN
+        (IF a.subs = b.subs THEN {} ELSE {"GetDomain"}) \cup (IF a.keys = b.keys THEN {} ELSE {"GetDomainKey"})
+        \cup (IF a.lines = b.lines THEN {} ELSE {"GetDomainLine"}) \cup (IF a.map = b.map THEN {} ELSE {"GetMap"})
+        \cup UNION {LET x1 == ResAt(a, k) x2 == ResAt(b, k) IN {GetterName[j] : j \in {j \in 1..8 : x1[j] # x2[j]}} : k \in Range(rec.keys)}
+     : p \in {rec.q[i].p : i \in 1..Len(rec.q)} \cup {rec.q2[i].p : i \in 1..Len(rec.q2)}}
+\* a verdict that found nothing wrong with the first observation also requires the second one to be the same
+Again(rec, v) == IF v.sig # "" \/ rec.q2 = rec.q THEN v
+                 ELSE LET ch == Changed(rec) IN
+                      [v EXCEPT !.sig = IF ch = {} THEN "harness:second-observation" ELSE "result-aliases-configuration:" \o First(ch),
+                                !.fs = SelectSeq(Priority, LAMBDA g : g \in ch)]
 
 \* a binding written after the mismatched close that no queried path returns
 Dropped(rec, r) == \E i \in (r.fault + 1)..Len(rec.lines) :
@@ -113,17 +134,19 @@ Judge(i) ==
       cls == RefClass(doc, r)
       fs  == Failed(rec, r)
       keyonly == \E p \in DOMAIN r.dom : OptKeys(r, p) # {} /\ OptKeys(r, p) \subseteq Range(EntryAt(rec, p).keys)
-      obs == IF rec.class = "ok" /\ keyonly THEN "key-only-line-defines-key" ELSE ""
+      obs == IF rec.class = "ok" /\ rec.shared # <<>> THEN "listing-storage-shared-between-two-callers"
+             ELSE IF rec.class = "ok" /\ keyonly THEN "key-only-line-defines-key" ELSE ""
   IN IF ~Sane(rec, r) THEN V(i, cls, rec.class, "harness:record-not-sane", "")
      ELSE IF rec.class = "panic" THEN V(i, cls, "panic", "panic:" \o cls, "")
      ELSE IF rec.class = "err" THEN V(i, cls, "err", IF cls = "wellformed" THEN "spurious-error:wellformed-document" ELSE "", "")
-     ELSE CASE cls = "mismatch"   -> IF Dropped(rec, r) THEN V(i, cls, "ok", "silent-partial:mismatched-close", obs)
+     ELSE Again(rec,
+          CASE cls = "mismatch"   -> IF Dropped(rec, r) THEN V(i, cls, "ok", "silent-partial:mismatched-close", obs)
                                      ELSE V(i, cls, "ok", "", "mismatched-close-accepted")
             [] cls = "hostile"    -> VF(i, cls, "ok", IF XmlBreaking(doc) THEN (IF fs = {} THEN "" ELSE "silent-partial:xml-token-error")
                                                       ELSE Differs(rec, r, fs, "xml-token-error"), obs, fs)
             [] cls = "unclosed"   -> VF(i, cls, "ok", Differs(rec, r, fs, "unclosed-domain"), obs, fs)
             [] cls = "wellformed" -> VF(i, cls, "ok", IF HasLong(doc) THEN Differs(rec, r, fs, "line-over-64KiB")
-                                                      ELSE IF fs = {} THEN "" ELSE "wrong-result:" \o First(fs), obs, fs)
+                                                      ELSE IF fs = {} THEN "" ELSE "wrong-result:" \o First(fs), obs, fs))
 Verdicts == [i \in 1..Len(Recs) |-> Judge(i)]
 ASSUME VocabSane
 ASSUME ndJsonSerialize("verdicts.ndjson", Verdicts)
